@@ -184,7 +184,11 @@ func (sess *session) newRef(fid Fid) (ref *SFid, err error) {
 func (sess *session) delRef(ctx context.Context, fid Fid,
 	remove bool) error {
 
-	ref1, found := sess.refs.LoadAndDelete(fid)
+	// Like every other operation, wait for the fid's lock first, and drop
+	// the fid from the table only once the entry has been clunked/removed.
+	// Otherwise other requests see the fid gone while an earlier request
+	// on it (or the removal itself) has not taken effect yet.
+	ref1, found := sess.refs.Load(fid)
 	if !found {
 		return ErrUnknownfid
 	}
@@ -192,11 +196,19 @@ func (sess *session) delRef(ctx context.Context, fid Fid,
 
 	ref.Lock()
 	defer ref.Unlock()
+	if cur, ok := sess.refs.Load(fid); !ok || cur != ref1 {
+		// clunked, removed or rolled back while we waited for the lock
+		return ErrUnknownfid
+	}
 	if ref.Ent == nil {
+		// nothing to release (an auth fid): as before, drop the slot
+		sess.refs.Delete(fid)
 		return nil
 	}
 
-	return delRefAction(ctx, ref, remove)
+	err := delRefAction(ctx, ref, remove)
+	sess.refs.Delete(fid)
+	return err
 }
 
 func combine_errors(err, err2 error) error {
